@@ -1319,8 +1319,15 @@ impl<'source, 'trivia> GroupBuilder<'source, 'trivia> {
     ) {
         match item.token {
             TriviaToken::EmptyLine => {
-                self.strip_trailing_breaks();
-                self.items.push(FormatItem::LineBreak);
+                // Empty lines at the start of a block are dropped,
+                // stripping the block's start would lose its indentation.
+                if !matches!(
+                    self.items.last(),
+                    Some(FormatItem::GroupBreak(GroupBreak::StartBlock))
+                ) {
+                    self.strip_trailing_breaks();
+                    self.items.push(FormatItem::LineBreak);
+                }
             }
             TriviaToken::CommentSingle | TriviaToken::SkipNode => {
                 if item.token == TriviaToken::SkipNode {
